@@ -107,8 +107,8 @@ def run(tier):
             # header lines far longer than any log line buffer (still within one 16 KiB transport buffer)
             for longb in (b"L" * 2100, b"M" * 12000, b"%s%n" * 600):
                 cases.append((BB, T, missing, b"Content-Type: multipart/byteranges; boundary=" + longb + b"\r\n", response(BB, h, missing, longb), 16384, 0))
-            for (hl, body) in rnd.sample(combos, 6):
-                cases.append((BB, T, missing, hl, body, rnd.choice([17, 16384]), 0))
+            for qi, (hl, body) in enumerate(rnd.sample(combos, 6)):
+                cases.append((BB, T, missing, hl, body, rnd.choice([17, 16384]), 0 if qi % 2 else -1))      # ZCK_LOG_DEBUG / ZCK_LOG_DDEBUG
     # header lines of EXACT lengths around every power of two up to the transport's buffer size (and every length near 256,
     # where fixed line buffers like to sit): as an ordinary header line before the Content-Type line, and as the
     # Content-Type line itself (the boundary padded so that the whole line has that length, the exchange well formed)
@@ -124,7 +124,9 @@ def run(tier):
         if Ln <= 16384:
             pad = b"X-Pad: " + b"p" * max(0, Ln - 9) + b"\r\n"
             if len(pad) == Ln:
-                cases.append((B, T_, [1, 3], (pad, ctpre + b"zckBOUNDARYzck\r\n"), response(B, hB_, [1, 3], b"zckBOUNDARYzck"), 16384, 5))
+                # (an ordinary header line without a boundary parameter; every fourth one with the most verbose log level, at which the
+                # library formats what it was handed: the block is exactly as long as the line, nothing follows it)
+                cases.append((B, T_, [1, 3], (pad, ctpre + b"zckBOUNDARYzck\r\n"), response(B, hB_, [1, 3], b"zckBOUNDARYzck"), 16384, -1 if Ln % 4 == 1 else 5))
         nb = Ln - len(ctpre) - 2
         if 1 <= nb <= 16000:
             bnd = b"b" * nb
